@@ -26,7 +26,11 @@ func (*urlencodedBodyProcessor) ProcessRequest(reader io.Reader, v plugintypes.T
 	values := urlutil.ParseQuery(b, '&')
 	argsCol := v.ArgsPost()
 	for k, vs := range values {
-		argsCol.Set(k, vs)
+		// Add, not Set: names differing only in letter case share a collection key and
+		// Set would let the last one replace the others
+		for _, val := range vs {
+			argsCol.Add(k, val)
+		}
 	}
 	v.RequestBody().(*collections.Single).Set(b)
 	v.RequestBodyLength().(*collections.Single).Set(strconv.Itoa(len(b)))
